@@ -25,6 +25,15 @@ CHECKS = {
  "C19": ("runtime monitor: metadata vs behaviour oracle (published keys must verify what the SP signs and decrypt what is encrypted to them)",
          "exploration: both metadata variants are produced for every key configuration with an encryption key, option combination, value class, zone and validity; the oracle checks endpoints, flags and validUntil against the configuration and clock, verifies an SP-signed message with the published signing key, validates an encrypted IdP-signed assertion per listed method with the published encryption key, and round-trips the XML",
          "configurations without an encryption key are out of domain (library returns an error)", "4/C19"),
+ "C14": ("runtime monitor: raw-octet query oracle with independent signature verification",
+         "exploration: redirect URLs from every flow are split on the raw query (no decoding), SAMLRequest is unescaped/base64-decoded/raw-inflated and compared with the supplied document, RelayState presence/value checked, and Signature verified with the expected public key over the exact percent-encoded octets, across relay states, IdP URL shapes, key configurations and algorithms",
+         "IdP URLs without SAML parameters of their own; compatible algorithms", "4/C14"),
+ "C16": ("runtime monitor: independent HTML5 tokenizer (golang.org/x/net/html) + exact expected-token-sequence oracle",
+         "exploration: every POST-binding page is tokenised by a parser independent of html/template and must equal the expected token sequence exactly (one form, action, message field == base64(document), RelayState iff non-empty and equal after entity decoding, fixed scripts, nothing else) over hostile relay states and documents",
+         "NUL and CR excluded (not representable in an HTML form); URL-safe endpoints", "4/C16"),
+ "C18": ("runtime monitor: crypto/rand.Reader pass-through spy + exactly-once read/identifier matching, uniqueness set, bit-balance; second pass under the race detector",
+         "exploration: 16 goroutines draw UUIDs and build messages while a spy on crypto/rand.Reader records every 16-byte read made inside uuid.NewV4; each identifier must be canonical v4/variant-1, unique, and its 122 free bits must equal exactly one recorded read",
+         "kernel randomness quality is trusted", "4/C18"),
 }
 
 NOT_BUILT = "monitor not built yet in this session (planned in DESIGN.md section 4)"
